@@ -324,7 +324,14 @@ def request_pool(groups):
         t, c = etgen.request_names(g)
         tens += t
         comps += c
-    return tens + comps if not tens else tens + comps + tens
+    pool = tens + comps if not tens else tens + comps + tens
+    # tensors whose components are written by different output groups
+    # (Weyl_Psi = WeylScal4 Psi4r + Psi4i): appended, so that the indices of
+    # the entries above do not depend on them
+    have = {v for g in groups for v in etgen.GROUPS[g][1]}
+    cross = [t for t, cs in etgen.AUREL_TENSORS.items()
+             if t not in tens and all(c in have for c in cs)]
+    return pool + cross * 2
 
 
 def build_spec(case, per_proc=None, grouped=None):
